@@ -787,3 +787,75 @@ func TestC12SlowReader(t *testing.T) {
 		col.Case(true, hx.JSON(desc), func() any { return desc })
 	})
 }
+
+// slowRec takes a little time per message, as a handler that stores does.
+type slowRec struct {
+	mu    sync.Mutex
+	got   []string
+	delay time.Duration
+	ended chan struct{}
+}
+
+func (h *slowRec) ServeNostr(ctx context.Context, send chan<- mocrelay.ServerMsg, recv <-chan mocrelay.ClientMsg) error {
+	defer func() { h.ended <- struct{}{} }()
+	for {
+		select {
+		case <-ctx.Done():
+			return ctx.Err()
+		case m, ok := <-recv:
+			if !ok {
+				return mocrelay.ErrRecvClosed
+			}
+			time.Sleep(h.delay)
+			if c, is := m.(*mocrelay.ClientCloseMsg); is {
+				h.mu.Lock()
+				h.got = append(h.got, c.SubscriptionID)
+				h.mu.Unlock()
+			}
+		}
+	}
+}
+
+// TestC12CloseAfterBurst: a client sends a burst of valid frames and closes the connection
+// properly right behind them, without waiting for anything. Every frame was sent before the
+// close, so the handler receives every one of them, once each, in order - however slow it is.
+func TestC12CloseAfterBurst(t *testing.T) {
+	col := ev.For("C12").SetRule(c12Rule)
+	rapid.Check(t, func(t *rapid.T) {
+		n := rapid.IntRange(2, 40).Draw(t, "frames")
+		delay := time.Duration(rapid.SampledFrom([]int{0, 200, 1000, 3000}).Draw(t, "handler_delay_us")) * time.Microsecond
+		desc := map[string]any{"mode": "burst of valid frames, then a proper close", "frames": n, "handler_delay": delay.String()}
+		h := &slowRec{delay: delay, ended: make(chan struct{}, 1)}
+		rig := newWSRig(openOptions(), h)
+		defer rig.close()
+		c, err := dial(rig.url)
+		if err != nil {
+			t.Fatalf("dial: %v", err)
+		}
+		defer c.CloseNow()
+		startReader(c)
+		var want []string
+		for i := 0; i < n; i++ {
+			id := fmt.Sprint("burst-", i)
+			want = append(want, id)
+			if err := c.Write(context.Background(), websocket.MessageText, []byte(`["CLOSE","`+id+`"]`)); err != nil {
+				hx.Fail(t, ev.Failure{Property: "C12", Signature: "connection-lost", Clause: "the connection takes valid frames", Case: desc, Observed: err.Error()})
+			}
+		}
+		go c.Close(websocket.StatusNormalClosure, "")
+		select {
+		case <-h.ended:
+		case <-time.After(waitLong):
+			hx.Fail(t, ev.Failure{Property: "C12", Signature: "connection-lost", Clause: "the session ends after the client closed the connection", Case: desc, Observed: "handler still running"})
+		}
+		h.mu.Lock()
+		got := append([]string{}, h.got...)
+		h.mu.Unlock()
+		if hx.JSON(got) != hx.JSON(want) {
+			hx.Fail(t, ev.Failure{Property: "C12", Signature: "handler-input-mismatch", Clause: "the handler receives exactly the frames that are well-formed valid client messages, once each, in the order sent (burst followed by a proper close)",
+				Case: desc, Observed: fmt.Sprintf("%d of %d received: %s", len(got), n, hx.JSON(got)), Expected: "all of them, in order"})
+		}
+		col.Label("mode:close-after-burst")
+		col.Case(true, hx.JSON(desc), func() any { return desc })
+	})
+}
